@@ -1,23 +1,187 @@
-import Fv.Cache.Policy.Lru
-import Fv.Cache.Policy.Fifo
-import Fv.Cache.Policy.Sieve
-import Fv.Cache.Policy.Clock
-import Fv.Cache.Policy.Random
-import Fv.Cache.Policy.Slru
-import Fv.Cache.Policy.Arc
-import Fv.Cache.Policy.TinyLfu
+import Fv.Lemmas.PolicyLru
 /-!
 # C14 — eviction policies nominate only tracked residents and follow their definition
-Property theorems only. Helper lemmas live in `Fv/Lemmas/Policy*.lean`.
+
+Property theorems only. Vocabulary (`tracked`, `Inv`, `Op`, `run`, `lastUse`, `insertedAt`) is in
+`Fv/Lemmas/PolicySpec.lean`; the contract predicates `EvictSound`, `AccessOk`, `AdmitOk`,
+`RemoveOk` are in `Fv/Lemmas/PolicyList.lean`; helper lemmas in `Fv/Lemmas/Policy*.lean`.
+
+Per policy `P` (all statements for every state satisfying the inductive invariant `P.Inv`, which
+holds after every history of admit/access/remove/evict/clear calls):
+* `P_inv_reachable`, `P_inv_step` — tracked keys are distinct, running totals = Σ recorded costs;
+* `P_evict_sound` — victims are distinct, tracked, reported at exactly their recorded cost, no
+  longer tracked afterwards, and every other tracked pair is unchanged;
+* `P_evict_enough` — `freed ≥ n` whenever the tracked keys are worth `n`;
+* `P_untrack_only_by_nomination` — access/admit/remove change the tracked set only as the trait
+  contract allows;
+* `P_readmit_updates_cost` — after `admit k c` the recorded cost of `k` is `c` (once);
+* LRU / FIFO order theorems against history-only specifications of recency / insertion time.
+Clauses that are false of the code have a `C14_fails_<finding>_<policy>` witness and a
+`_partial` theorem.
 -/
 namespace Fv.Props.C14
 open Fv.Cache.Policy
+
+/-! ## LRU -/
+
+/-- After every history the LRU list has distinct keys and `current_cost` = Σ recorded costs. -/
+theorem lru_inv_reachable (ops : List Op) : Lru.Inv (Lru.run ops) :=
+  foldl_inv Lru.step Lru.Inv (fun _ a h => Lru.Inv_step h a) ops Lru.init Lru.Inv_init
+
+/-- Every single call preserves the invariant (from any state satisfying it). -/
+theorem lru_inv_step {s : Lru.State} (h : Lru.Inv s) (op : Op) : Lru.Inv (Lru.step s op) :=
+  Lru.Inv_step h op
+
+example : Lru.Inv (Lru.run [.admit 1 2, .admit 2 0, .access 1 2, .evict 1 []]) := lru_inv_reachable _
+
+/-- `evict` nominates distinct tracked keys, reports exactly their recorded costs, untracks
+exactly them and leaves every other tracked pair unchanged. -/
+theorem lru_evict_sound {s : Lru.State} (h : Lru.Inv s) (n : Nat) :
+    EvictSound (Lru.tracked s) (Lru.tracked (Lru.evict s n).1) (Lru.evict s n).2.1 (Lru.evict s n).2.2
+    ∧ Lru.Inv (Lru.evict s n).1 := by
+  obtain ⟨popped, l', he, hs, hw, _, _⟩ := Lru.evict_spec h n
+  rw [he]; exact ⟨EvictSound.of_back h.1 hs, hw⟩
+
+/-- `evict n` frees at least `n` whenever the tracked keys are worth that much. -/
+theorem lru_evict_enough {s : Lru.State} (h : Lru.Inv s) {n : Nat}
+    (hn : n ≤ costSum (Lru.tracked s)) : n ≤ (Lru.evict s n).2.2 := by
+  obtain ⟨popped, l', he, hs, _, hd, _⟩ := Lru.evict_spec h n
+  rw [he]
+  rcases hd with hd | hd
+  · exact hd
+  · simp only [Lru.tracked] at hn; rw [hs, hd] at hn; simpa using hn
+
+example : Lru.Inv (Lru.run [.admit 1 2, .admit 2 3]) ∧ 4 ≤ costSum (Lru.tracked (Lru.run [.admit 1 2, .admit 2 3])) :=
+  ⟨lru_inv_reachable _, by decide⟩
+
+/-- access / admit / remove / clear change the tracked set only as allowed: access keeps it,
+admit adds `k` (never nominating anything), remove drops exactly `k`, clear drops everything. -/
+theorem lru_untrack_only_by_nomination {s : Lru.State} (h : Lru.Inv s) (k c : Nat) :
+    AccessOk (Lru.tracked s) (Lru.tracked (Lru.access s k c)) k
+    ∧ AdmitOk (Lru.tracked s) (Lru.tracked (Lru.admit s k c).1) k (Lru.admit s k c).2.victims
+    ∧ RemoveOk (Lru.tracked s) (Lru.tracked (Lru.remove s k)) k
+    ∧ Lru.tracked (Lru.clear s) = [] := by
+  refine ⟨AccessOk.of_perm (LruList.moveToFront_perm h k) k, ?_, ?_, rfl⟩
+  · simp only [Lru.tracked, Lru.admit, Admission.victims]; rw [LruList.pushFront_items]
+    exact AdmitOk.of_push _ k c
+  · simp only [Lru.tracked, Lru.remove]; rw [LruList.remove_items]
+    exact RemoveOk.of_without _ k
+
+/-- Re-admitting a key updates its recorded cost (and `Inv` says it is recorded once). -/
+theorem lru_readmit_updates_cost (s : Lru.State) (k c : Nat) :
+    costOf (Lru.tracked (Lru.admit s k c).1) k = some c := by
+  simp only [Lru.tracked, Lru.admit]; rw [LruList.pushFront_items]; exact costOf_push _ k c
+
+/-- The LRU list is ordered by the history-only recency measure `lastUse` (head = most recent):
+the model's list order IS the least-recently-used order of the call history. -/
+theorem lru_list_sorted_by_recency (ops : List Op) :
+    (Lru.tracked (Lru.run ops)).Pairwise (fun p q => lastUse ops q.1 < lastUse ops p.1) :=
+  Lru.recencySorted_run ops
+
+/-- LRU evicts in least-recently-used order, exactly: after any history `ops`, `evict n`
+nominates victims in strictly increasing recency of last use, every victim was used less recently
+than every key that stays tracked, and it stops as soon as the request is met (all victims but
+the last are worth `< n`). With `lru_evict_sound` this pins the victim list down uniquely. -/
+theorem lru_evicts_least_recent (ops : List Op) (n : Nat) :
+    let s := Lru.run ops
+    let r := Lru.evict s n
+    r.2.1.Pairwise (fun a b => lastUse ops a < lastUse ops b)
+    ∧ (∀ v ∈ r.2.1, ∀ x ∈ keys (Lru.tracked r.1), lastUse ops v < lastUse ops x)
+    ∧ (∀ vs0 v, r.2.1 = vs0 ++ [v] →
+        (vs0.map (fun k => (costOf (Lru.tracked s) k).getD 0)).sum < n) := by
+  intro s r
+  have hinv : Lru.Inv s := lru_inv_reachable ops
+  obtain ⟨popped, l', he, hs, _, _, hm⟩ := Lru.evict_spec hinv n
+  have ho := back_order (R := fun a b => lastUse ops a < lastUse ops b) hs (Lru.recencySorted_run ops)
+  simp only [r, he]
+  exact ⟨ho.1, ho.2, back_minimal hinv.1 hs hm⟩
+
+example : (Lru.evict (Lru.run [.admit 1 1, .admit 2 1, .admit 3 1, .access 1 1]) 2).2.1 = [2, 3] := by
+  decide
+
+/-! ## FIFO -/
+
+theorem fifo_inv_reachable (ops : List Op) : Fifo.Inv (Fifo.run ops) :=
+  foldl_inv Fifo.step Fifo.Inv (fun _ a h => Fifo.Inv_step h a) ops Fifo.init Fifo.Inv_init
+
+theorem fifo_inv_step {s : Fifo.State} (h : Fifo.Inv s) (op : Op) : Fifo.Inv (Fifo.step s op) :=
+  Fifo.Inv_step h op
+
+example : Fifo.Inv (Fifo.run [.admit 1 2, .admit 1 0, .evict 1 []]) := fifo_inv_reachable _
+
+theorem fifo_evict_sound {s : Fifo.State} (h : Fifo.Inv s) (n : Nat) :
+    EvictSound (Fifo.tracked s) (Fifo.tracked (Fifo.evict s n).1) (Fifo.evict s n).2.1 (Fifo.evict s n).2.2
+    ∧ Fifo.Inv (Fifo.evict s n).1 := by
+  obtain ⟨popped, l', he, hs, hw, _, _⟩ := Fifo.evict_spec h n
+  rw [he]; exact ⟨EvictSound.of_back h.1 hs, hw⟩
+
+theorem fifo_evict_enough {s : Fifo.State} (h : Fifo.Inv s) {n : Nat}
+    (hn : n ≤ costSum (Fifo.tracked s)) : n ≤ (Fifo.evict s n).2.2 := by
+  obtain ⟨popped, l', he, hs, _, hd, _⟩ := Fifo.evict_spec h n
+  rw [he]
+  rcases hd with hd | hd
+  · exact hd
+  · simp only [Fifo.tracked] at hn; rw [hs, hd] at hn; simpa using hn
+
+theorem fifo_untrack_only_by_nomination (s : Fifo.State) (k c : Nat) :
+    AccessOk (Fifo.tracked s) (Fifo.tracked (Fifo.access s k c)) k
+    ∧ AdmitOk (Fifo.tracked s) (Fifo.tracked (Fifo.admit s k c).1) k (Fifo.admit s k c).2.victims
+    ∧ RemoveOk (Fifo.tracked s) (Fifo.tracked (Fifo.remove s k)) k
+    ∧ Fifo.tracked (Fifo.clear s) = [] := by
+  refine ⟨AccessOk.rfl' k, ?_, ?_, rfl⟩
+  · simp only [Fifo.tracked, Fifo.admit_fst]
+    have hv : (Fifo.admit s k c).2.victims = [] := rfl
+    rw [hv]
+    split
+    · next hk => exact AdmitOk.of_noop hk
+    · rw [LruList.pushFront_items]; exact AdmitOk.of_push _ k c
+  · simp only [Fifo.tracked, Fifo.remove]; rw [LruList.remove_items]
+    exact RemoveOk.of_without _ k
 
 /-- F9c witness: FIFO keeps the stale cost on re-admission (full clause "re-admitting a key
 updates its cost" is false of the code). -/
 theorem C14_fails_F9c_fifo :
     let s := (Fifo.admit (Fifo.admit Fifo.init 1 1).1 1 5).1
     s.lookup 1 = some 1 := by decide
+
+/-- PARTIAL (F9c): excluded is the cost update on re-admission of a key that is already tracked —
+then `admit` is a no-op and the OLD cost stays (no duplication though). For an untracked key the
+cost is recorded as given. -/
+theorem fifo_readmit_updates_cost_partial (s : Fifo.State) (k c : Nat) :
+    (k ∉ keys (Fifo.tracked s) → costOf (Fifo.tracked (Fifo.admit s k c).1) k = some c)
+    ∧ (k ∈ keys (Fifo.tracked s) → (Fifo.admit s k c).1 = s) := by
+  simp only [Fifo.tracked, Fifo.admit_fst]
+  refine ⟨fun hk => ?_, fun hk => by simp [hk]⟩
+  simp only [hk, if_false]; rw [LruList.pushFront_items]; exact costOf_push _ k c
+
+/-- The FIFO list is ordered by insertion time (head = newest), where `insertedAt` is refreshed
+neither by access nor by re-admission of a tracked key. -/
+theorem fifo_list_sorted_by_insertion (ops : List Op) :
+    (Fifo.tracked (Fifo.run ops)).Pairwise
+      (fun p q => Fifo.insertedAt ops q.1 < Fifo.insertedAt ops p.1) :=
+  (Fifo.insertionSorted_run ops).1
+
+/-- FIFO evicts in insertion order, exactly: oldest insertion first, every victim inserted before
+every survivor, stopping as soon as the request is met. -/
+theorem fifo_evicts_in_insertion_order (ops : List Op) (n : Nat) :
+    let s := Fifo.run ops
+    let r := Fifo.evict s n
+    r.2.1.Pairwise (fun a b => Fifo.insertedAt ops a < Fifo.insertedAt ops b)
+    ∧ (∀ v ∈ r.2.1, ∀ x ∈ keys (Fifo.tracked r.1), Fifo.insertedAt ops v < Fifo.insertedAt ops x)
+    ∧ (∀ vs0 v, r.2.1 = vs0 ++ [v] →
+        (vs0.map (fun k => (costOf (Fifo.tracked s) k).getD 0)).sum < n) := by
+  intro s r
+  have hinv : Fifo.Inv s := fifo_inv_reachable ops
+  obtain ⟨popped, l', he, hs, _, _, hm⟩ := Fifo.evict_spec hinv n
+  have ho := back_order (R := fun a b => Fifo.insertedAt ops a < Fifo.insertedAt ops b) hs
+    (Fifo.insertionSorted_run ops).1
+  simp only [r, he]
+  exact ⟨ho.1, ho.2, back_minimal hinv.1 hs hm⟩
+
+example : (Fifo.evict (Fifo.run [.admit 1 1, .admit 2 1, .admit 3 1, .access 1 1, .admit 1 1]) 2).2.1
+    = [1, 2] := by decide
+
+/-! ## ARC / TinyLFU witnesses -/
 
 /-- F9a witness: ARC stops tracking key 1 without nominating it. -/
 theorem C14_fails_F9a_arc :
